@@ -180,14 +180,18 @@ def build_sim_world(d, seed, variant):
 SHIPPED_SMALL = ["nudt15", "cyp2c19", "tpmt", "cyp3a5", "cyp2b6", "cyp2c9", "cyp2w1"]
 
 
-def build_real_world():
-    """The repo's own test sample: CYP2D6 on NA10860.bam with the shipped illumina profile (hg19)."""
+def build_real_world(fast=False):
+    """The repo's own test sample: CYP2D6 on NA10860.bam with the shipped illumina profile (hg19).
+    fast: read phasing off (25 s instead of 60 s per run) and an alternative neutral region for the "nreg" mode."""
     from . import genes as G
 
     res = os.path.join(aldyenv.ALDY_SRC, "aldy/tests/resources")
-    return {"kind": "real", "seed": 0, "genome": "hg19", "cn_region": None, "profile_bam": "illumina", "user_cn": ["1", "1"],
-            "genes": {"A": {"yml": os.path.join(G.genes_dir(), "cyp2d6.yml"), "db": "cyp2d6", "name": "CYP2D6", "genome": "hg19"}},
-            "samples": {"s1": {"bam": os.path.join(res, "NA10860.bam")}}}
+    w = {"kind": "real", "seed": 0, "genome": "hg19", "cn_region": None, "profile_bam": "illumina", "user_cn": ["1", "1"],
+         "genes": {"A": {"yml": os.path.join(G.genes_dir(), "cyp2d6.yml"), "db": "cyp2d6", "name": "CYP2D6", "genome": "hg19"}},
+         "samples": {"s1": {"bam": os.path.join(res, "NA10860.bam")}}}
+    if fast:
+        w.update(variant="CYP2D6-fast", params={"phase": False}, alt_cn_region=["22", 42547463, 42547763])
+    return w
 
 
 def _has_added(spec):
@@ -509,12 +513,17 @@ class World:
         assert sp["kind"] in ("sim", "real"), "Genotype needs a sample file"
         paths = ",".join(sp["genes"][g].get("db", sp["genes"][g]["yml"]) for g in gs)
         kw = dict(genome=sp["genome"])
+        kw.update(sp.get("params") or {})
         if sp.get("cn_region"):
             kw["cn_region"] = GRange(*sp["cn_region"])
         profile = sp["profile_bam"]
         if mode == "cn":
             kw["cn_solution"] = list(sp["user_cn"])
             profile = None
+        if mode == "nreg":
+            # the same sample with ANOTHER copy-number-neutral region (a run with other parameters in between two
+            # identical runs): results of the default runs around it must not change
+            kw["cn_region"] = GRange(*sp["alt_cn_region"])
         loads = []
         handler = logbook.TestHandler(level=logbook.ERROR)
         with handler.applicationbound(), self._capture_loads(loads):
